@@ -265,10 +265,27 @@ func c07(c *Ctx) {
 		}
 	}
 	if w := c.fn(pkgClaim, "withoutKeys"); w != nil {
+		// the set of keys to drop is built from the keys parameter (any set-like map), the other map
+		// written is the result
 		var out *ssa.MapUpdate
+		keysParam := ssa.Value(w.Params[len(w.Params)-1])
+		fromKeys := func(v ssa.Value) bool {
+			return flow.Strict.Any(v, func(x ssa.Value) bool {
+				rg, ok := x.(*ssa.Range)
+				return ok && flow.Root(rg.X) == keysParam || x == keysParam
+			})
+		}
+		filterMaps := map[ssa.Value]bool{}
 		for _, b := range w.Blocks {
 			for _, in := range b.Instrs {
-				if mu, ok := in.(*ssa.MapUpdate); ok && !isBoolMap(mu.Map.Type()) {
+				if mu, ok := in.(*ssa.MapUpdate); ok && fromKeys(mu.Key) {
+					filterMaps[sole(mu.Map)] = true
+				}
+			}
+		}
+		for _, b := range w.Blocks {
+			for _, in := range b.Instrs {
+				if mu, ok := in.(*ssa.MapUpdate); ok && !filterMaps[sole(mu.Map)] {
 					out = mu
 				}
 			}
@@ -276,12 +293,39 @@ func c07(c *Ctx) {
 		if out == nil {
 			c.R.Unknown(load.FuncName(w)+": out store", c.pos(w.Pos()), "not found")
 		} else {
+			// "k is not one of the keys": a lookup in the set (its value, or its presence), or slices.Contains(keys, k)
 			var keep []cfgx.Edge
 			for _, b := range w.Blocks {
 				for _, in := range b.Instrs {
-					if lk, ok := in.(*ssa.Lookup); ok && isBoolMap(lk.X.Type()) {
-						_, f := cfgx.CondEdges(lk)
-						keep = append(keep, f...)
+					switch x := in.(type) {
+					case *ssa.Lookup:
+						if !filterMaps[sole(x.X)] {
+							continue
+						}
+						if !x.CommaOk {
+							if isBoolMap(x.X.Type()) {
+								_, f := cfgx.CondEdges(x)
+								keep = append(keep, f...)
+							}
+							continue
+						}
+						if x.Referrers() != nil {
+							for _, r := range *x.Referrers() {
+								if ex, ok := r.(*ssa.Extract); ok && ex.Index == 1 {
+									_, f := cfgx.CondEdges(ex)
+									keep = append(keep, f...)
+								}
+							}
+						}
+					case ssa.CallInstruction:
+						nm := cfgx.CalleeName(x)
+						if i := strings.Index(nm, "["); i > 0 {
+							nm = nm[:i]
+						}
+						if nm == "slices.Contains" && len(x.Common().Args) == 2 && flow.Root(x.Common().Args[0]) == keysParam {
+							_, f := cfgx.CallCondEdges(x)
+							keep = append(keep, f...)
+						}
 					}
 				}
 			}
